@@ -73,7 +73,7 @@ func init() {
 	control(&Control{ID: "statustable-notfound", Rule: "STATUS-TABLE", File: "larking/code.go",
 		Old: "http.StatusNotFound,", New: "http.StatusGone,", Expect: "[5 NOT_FOUND]", Why: "NOT_FOUND mapped to 410"})
 	control(&Control{ID: "tableguard-off-by-one", Rule: "TABLE-GUARD", File: "larking/code.go",
-		Old: "if int(c) >= len(codeToHTTPStatus) {", New: "if int(c) > len(codeToHTTPStatus) {", Expect: "HTTPStatusCode/index", Why: "restore D19"})
+		Old: "if c >= codes.Code(len(codeToHTTPStatus)) {", New: "if c > codes.Code(len(codeToHTTPStatus)) {", Expect: "HTTPStatusCode/index", Why: "restore D19"})
 	control(&Control{ID: "twirp-cancelled", Rule: "TWIRP-TABLE", File: "larking/code.go",
 		Old: "\"canceled\",", New: "\"cancelled\",", Expect: "[1 CANCELLED]", Why: "restore D20 spelling"})
 	control(&Control{ID: "encoder-no-close", Rule: "ENCODER-CLOSE", File: "larking/web.go",
